@@ -383,6 +383,55 @@ def check_bool(recipe, ctx):
 
 
 # ---------------------------------------------------------------------------
+# combinators are values: a spec kept in a variable and re-used as an operand still denotes its own expression
+
+def gen_reuse(draw):
+    counter = [0]
+    leaf = lambda: ['m', draw(st.sampled_from(OPS)), ['i', draw(st.integers(0, 3))]]
+    base_kind = draw(st.sampled_from(['and', 'or']))
+    base = [base_kind, [leaf() for _ in range(draw(st.integers(1, 3)))]]
+    if draw(st.integers(0, 4)) == 0:
+        base.append(['lit', ['s', 'dflt']])
+    derived = [[draw(st.sampled_from(['and', 'or'])), leaf()] for _ in range(draw(st.integers(1, 3)))]
+    return {'base': base, 'derived': derived, 'targets': [draw(st.sampled_from(TARGETS[:5])) for _ in range(3)]}
+
+
+def check_reuse(recipe, ctx):
+    base_r = recipe['base']
+    base = build_tree(base_r, [], 'ops' if len(base_r) == 2 else 'ctor')
+    repr0 = repr(base)
+    ctx.nontrivial(len(recipe['derived']) >= 2)
+
+    def outcome(spec, t):
+        return run(t, Match(spec))[0:1] + ((run(t, Match(spec))[1],) if run(t, Match(spec))[0] == 'ok' else ())
+
+    def expected(tree, t):
+        try:
+            return ('ok', refbool(tree, t, []))
+        except Rej:
+            return ('rej',)
+        except RefRaise:
+            return ('raise',)
+    targets = [tg.build(t).obj for t in recipe['targets']]
+    specs = []
+    for op, leaf_r in recipe['derived']:
+        leaf = build_tree(leaf_r, [], 'ops')
+        d = (base & leaf) if op == 'and' else (base | leaf)
+        specs.append((d, [op, [base_r, leaf_r]]))
+    for t in targets:
+        if outcome(base, t) != expected(base_r, t):
+            raise Mismatch('operand-mutated', 'after deriving %r from it, base %s (now %r) on %r gives %r, expected %r'
+                           % ([repr(d) for d, _ in specs], repr0, base, t, outcome(base, t), expected(base_r, t)))
+        for d, tree in specs:
+            if outcome(d, t) != expected(tree, t):
+                raise Mismatch('operand-mutated', 'derived %r (base %s %s leaf) on %r gives %r, expected %r'
+                               % (d, repr0, tree[0], t, outcome(d, t), expected(tree, t)))
+    if repr(base) != repr0:
+        raise Mismatch('operand-mutated', 'repr of the base changed from %s to %r' % (repr0, base))
+    ctx.outcome([repr0, len(specs)])
+
+
+# ---------------------------------------------------------------------------
 # Switch
 
 def gen_switch(draw):
@@ -588,4 +637,5 @@ SUBS = [
         floors={'exp-ok': 0.2, 'exp-rej': 0.2, 'short-circuit': 0.03, 'build-ops': 0.2}),
     Sub('switch', check_switch, gen=gen_switch, quick=3000, thorough=10000, floors={'exp-ok': 0.2, 'exp-rej': 0.05}),
     Sub('checkkw', check_checkkw, gen=gen_check, quick=4000, thorough=15000, floors={'pass': 0.05, 'default': 0.2}),
+    Sub('reuse', check_reuse, gen=gen_reuse, quick=800, thorough=4000),
 ]
